@@ -18,11 +18,6 @@ is the serializer model `dumps`, whose output alphabet is a theorem.
 namespace Aiorpcx.C04
 open Aiorpcx.Py
 
-/-- evaluate lookups in literal member lists -/
-macro "lk" : tactic =>
-  `(tactic| simp +decide [lookup_cons, lookup_nil, J.hasKey, responseMessagePayload, responsePayload,
-      errorPayload, errorObj, kJsonrpc, kMethod, kParams, kId, kResult, kError, kCode, kMessage, s20])
-
 /-! ## What 1.0 refuses to encode -/
 
 /-- the 1.0 encoder raises (`INVALID_ARGS`) on named arguments; nothing is emitted -/
@@ -265,55 +260,22 @@ theorem autodetect_batch (ps : List J) (hne : ps ≠ [])
 /-- **Every** payload is classified exactly as the specification table says (`Classify.lean`):
 the outcome is an item of the stated kind or a `ProtocolError` with the documented code; it
 depends only on which of {jsonrpc, method, params, id, result, error} are present and on the
-kinds of their values. -/
+kinds of their values.  (Proof in `ClassifyProofs.lean`, which C05 reuses.) -/
 theorem classification_total (P : Proto) (p : J) :
-    outClass (payloadToItem P p) = classify P (topOf p) := by
-  cases p with
-  | obj kvs => exact classify_obj P kvs
-  | arr xs =>
-    cases xs with
-    | nil => cases P <;> rfl
-    | cons x xs => cases P <;> rfl
-  | null | bool _ | int _ | float _ | str _ => cases P <;> rfl
-
-/-- an item class, or a `ProtocolError` with one of the three documented codes -/
-def okClass (c : OutClass) : Bool :=
-  c matches .request | .notification | .result | .rpcError | .batch ||
-  c == .err INVALID_REQUEST || c == .err METHOD_NOT_FOUND || c == .err INVALID_ARGS
-
-theorem tail_ok (s : Shape) : okClass (classifyRequestTail s) = true := by
-  unfold classifyRequestTail; split <;> decide
+    outClass (payloadToItem P p) = classify P (topOf p) :=
+  classification_total_core P p
 
 /-- the codes of the table are the documented ones -/
-theorem classify_codes (P : Proto) (t : TopK) : okClass (classify P t) = true := by
-  cases t with
-  | object s =>
-    cases P <;> simp only [classify, classifyV1, classifyV2, classifyLoose] <;>
-      (repeat' split) <;> first | exact tail_ok _ | decide
-  | emptyArray | array | other => cases P <;> decide
+theorem classify_codes (P : Proto) (t : TopK) : okClass (classify P t) = true :=
+  classify_codes_core P t
 
 /-- hence: decoding a payload never raises anything but a `ProtocolError`, and its code is one
 of INVALID_REQUEST / METHOD_NOT_FOUND / INVALID_ARGS -/
 theorem decode_only_protocol_errors (P : Proto) (p : J) :
     (∃ x, payloadToItem P p = .ok x) ∨
     (∃ e, payloadToItem P p = .error (.proto e)
-      ∧ (e.code = INVALID_REQUEST ∨ e.code = METHOD_NOT_FOUND ∨ e.code = INVALID_ARGS)) := by
-  have h1 := classification_total P p
-  have h2 := classify_codes P (topOf p)
-  rw [← h1] at h2
-  rcases hres : payloadToItem P p with (e | e) | x
-  · right
-    refine ⟨e, rfl, ?_⟩
-    rw [hres] at h2
-    have h3 : (e.code = INVALID_REQUEST ∨ e.code = METHOD_NOT_FOUND) ∨ e.code = INVALID_ARGS := by
-      simpa [outClass, okClass] using h2
-    rcases h3 with (h | h) | h
-    · exact Or.inl h
-    · exact Or.inr (Or.inl h)
-    · exact Or.inr (Or.inr h)
-  · rw [hres] at h2
-    simp [outClass, okClass] at h2
-  · exact Or.inl ⟨x, rfl⟩
+      ∧ (e.code = INVALID_REQUEST ∨ e.code = METHOD_NOT_FOUND ∨ e.code = INVALID_ARGS)) :=
+  decode_only_protocol_errors_core P p
 
 /-! ## The bytes: one newline-free line -/
 
